@@ -54,41 +54,13 @@ Definition T_NSEC : N := 47. Definition T_DNSKEY : N := 48. Definition T_NSEC3 :
 Definition RC_NXDOMAIN : N := 3.
 
 (* ------------------------------------------------------- algorithms (tie) *)
-(* miekg/dns constant names -> numbers (library constants; the SETS come from
-   the source through Gen.C01) *)
-Fixpoint bytes_eqb (a b : list N) : bool :=
-  match a, b with
-  | [], [] => true
-  | x :: a', y :: b' => (x =? y) && bytes_eqb a' b'
-  | _, _ => false
-  end.
-Definition nm_SHA1 := [83;72;65;49].
-Definition nm_SHA256 := [83;72;65;50;53;54].
-Definition nm_SHA384 := [83;72;65;51;56;52].
-Definition digest_code (nm : list N) : N :=
-  if bytes_eqb nm nm_SHA1 then 1 else if bytes_eqb nm nm_SHA256 then 2 else
-  if bytes_eqb nm nm_SHA384 then 4 else 255.
-Definition alg_code (nm : list N) : N :=
-  if bytes_eqb nm [82;83;65;83;72;65;49] then 5 else
-  if bytes_eqb nm [82;83;65;83;72;65;49;78;83;69;67;51;83;72;65;49] then 7 else
-  if bytes_eqb nm [82;83;65;83;72;65;50;53;54] then 8 else
-  if bytes_eqb nm [82;83;65;83;72;65;53;49;50] then 10 else
-  if bytes_eqb nm [69;67;68;83;65;80;50;53;54;83;72;65;50;53;54] then 13 else
-  if bytes_eqb nm [69;67;68;83;65;80;51;56;52;83;72;65;51;56;52] then 14 else
-  if bytes_eqb nm [69;68;50;53;53;49;57] then 15 else
-  if bytes_eqb nm [82;83;65;77;68;53] then 1 else
-  if bytes_eqb nm [69;67;67;71;79;83;84] then 12 else
-  if bytes_eqb nm [69;68;52;52;56] then 16 else 255.
-Definition supported_digest (dt : N) : bool :=
-  existsb (fun nm => digest_code nm =? dt) supported_ds_digest_names.
-Definition supported_alg (a : N) : bool :=
-  existsb (fun nm => alg_code nm =? a) supported_dnskey_alg_names.
-(* dsRRFromRootKeys: digest "dns.DH" — the constant's VALUE is 2, i.e. SHA-256 *)
-Definition root_ds_digest : N :=
-  match root_ds_digest_name with
-  | [nm] => if bytes_eqb nm [68;72] then 2 else digest_code nm
-  | _ => 255
-  end.
+(* the supported DS digest types and DNSKEY algorithms ARE the translated Go functions
+   (dnssec.IsSupportedDSDigest / IsSupportedDNSKEYAlgorithm, with miekg's constant values filled in by
+   the type checker): editing either switch in /repo changes these definitions *)
+Definition supported_digest (dt : N) : bool := go_IsSupportedDSDigest dt.
+Definition supported_alg (a : N) : bool := go_IsSupportedDNSKEYAlgorithm a.
+(* dsRRFromRootKeys: the digest type handed to DNSKEYToDSWithWork (the source says dns.DH, whose VALUE is 2 = SHA-256) *)
+Definition root_ds_digest : N := root_ds_digest_code.
 
 (* ------------------------------------------------------------- data terms *)
 Record key := mk_key { k_owner : name; k_class : N; k_flags : N; k_proto : N; k_alg : N;
@@ -175,35 +147,22 @@ Definition err_eqb (a b : err) : bool :=
   | ELookup i, ELookup j | EOracle i, EOracle j | EDnameLeg i, EDnameLeg j => i =? j
   | _, _ => false
   end.
-(* RFC 8914 code the client is told (dnssec/errors.go through ErrorToEDE); the
-   name->code pairs are read from errors.go by srcgen *)
-Definition ede_name_code (nm : list N) : N :=
-  if bytes_eqb nm [68;78;83;66;111;103;117;115] then 6 else                         (* DNSBogus *)
-  if bytes_eqb nm [83;105;103;110;97;116;117;114;101;69;120;112;105;114;101;100] then 7 else (* SignatureExpired *)
-  if bytes_eqb nm [68;78;83;75;69;89;77;105;115;115;105;110;103] then 9 else        (* DNSKEYMissing *)
-  if bytes_eqb nm [82;82;83;73;71;115;77;105;115;115;105;110;103] then 10 else      (* RRSIGsMissing *)
-  if bytes_eqb nm [78;83;69;67;77;105;115;115;105;110;103] then 12 else             (* NSECMissing *)
-  if bytes_eqb nm [79;116;104;101;114] then 0 else 255.                              (* Other *)
-Fixpoint assoc_code (nm : list N) (names codes : list (list N)) : N :=
-  match names, codes with
-  | n :: ns, c :: cs => if bytes_eqb n nm then ede_name_code c else assoc_code nm ns cs
-  | _, _ => 255
-  end.
-Definition ede_of_var (nm : list N) : N := assoc_code nm ede_err_names ede_err_codes.
+(* RFC 8914 code the client is told (dnssec/errors.go through ErrorToEDE): the Code field of each sentinel,
+   evaluated by srcgen as a Go constant expression (miekg's dns.ExtendedErrorCode… values) *)
 Definition ede (e : err) : N :=
   match e with
-  | ENoDNSKEY => ede_of_var [69;114;114;78;111;68;78;83;75;69;89]
-  | EMissingKSK => ede_of_var [69;114;114;77;105;115;115;105;110;103;75;83;75]
-  | EFailedToConvertKSK => ede_of_var [69;114;114;70;97;105;108;101;100;84;111;67;111;110;118;101;114;116;75;83;75]
-  | EMismatchingDS => ede_of_var [69;114;114;77;105;115;109;97;116;99;104;105;110;103;68;83]
-  | ENoSignatures => ede_of_var [69;114;114;78;111;83;105;103;110;97;116;117;114;101;115]
-  | EMissingDNSKEY => ede_of_var [69;114;114;77;105;115;115;105;110;103;68;78;83;75;69;89]
-  | EInvalidSignaturePeriod => ede_of_var [69;114;114;73;110;118;97;108;105;100;83;105;103;110;97;116;117;114;101;80;101;114;105;111;100]
-  | EMissingSigned => ede_of_var [69;114;114;77;105;115;115;105;110;103;83;105;103;110;101;100]
-  | EDSRecords => ede_of_var [69;114;114;68;83;82;101;99;111;114;100;115]
-  | ETrustAnchorsUnavailable => ede_of_var [69;114;114;84;114;117;115;116;65;110;99;104;111;114;115;85;110;97;118;97;105;108;97;98;108;101]
-  | ENSECMissingCoverage => ede_of_var [69;114;114;78;83;69;67;77;105;115;115;105;110;103;67;111;118;101;114;97;103;101]
-  | EWildcardNoDenial => ede_of_var [69;114;114;87;105;108;100;99;97;114;100;78;111;68;101;110;105;97;108]
+  | ENoDNSKEY => ede_ErrNoDNSKEY
+  | EMissingKSK => ede_ErrMissingKSK
+  | EFailedToConvertKSK => ede_ErrFailedToConvertKSK
+  | EMismatchingDS => ede_ErrMismatchingDS
+  | ENoSignatures => ede_ErrNoSignatures
+  | EMissingDNSKEY => ede_ErrMissingDNSKEY
+  | EInvalidSignaturePeriod => ede_ErrInvalidSignaturePeriod
+  | EMissingSigned => ede_ErrMissingSigned
+  | EDSRecords => ede_ErrDSRecords
+  | ETrustAnchorsUnavailable => ede_ErrTrustAnchorsUnavailable
+  | ENSECMissingCoverage => ede_ErrNSECMissingCoverage
+  | EWildcardNoDenial => ede_ErrWildcardNoDenial
   | EOracle c => c
   | _ => 0          (* untyped errors: ExtendedErrorCodeOther with the message *)
   end.
@@ -247,7 +206,8 @@ Definition valid_period (inc exp : N) (now : Z) : bool :=
   (ti <=? now)%Z && (now <=? te)%Z.
 
 (* ---------------------------------------------------------------- VerifyDS *)
-Definition zone_bit (flags : N) : bool := negb (N.land flags 256 =? 0).
+(* key.Flags&dns.ZONE != 0 — the mask is read from usableSignatureCandidate; usableDSCandidate's is tied to it (gen_zone_masks) *)
+Definition zone_bit (flags : N) : bool := negb (N.land flags sig_candidate_zone_mask =? 0).
 (* usableDSCandidate *)
 Definition usable_ds_candidate (dsr : rr) (tag alg : N) (k : key) : bool :=
   (k_tag k =? tag) && (k_alg k =? alg) && (k_class k =? r_class dsr) &&
